@@ -18,7 +18,7 @@ KINDS = {
     "C08": ["timed_window", "timed_window_unique", "partition"],
     "C13": ["rate_limit", "delay"],
     "C14": ["latest"],
-    "C16A": ["partition", "timed_window_unique"],
+    "C16A": ["partition", "timed_window_unique", "map_async", "flatten"],
 }
 
 
@@ -42,6 +42,13 @@ def oracle(prop, case, obs):
     if prop == "C16A":
         return asyncoracle.check_c16a(case, obs)
     return []
+
+
+def after_failed_call(case, obs):
+    """C03 on a map_async whose function failed at call time for some elements: every emit of the other elements completes
+    once all consumers and tasks have finished"""
+    return [("C03", sig.replace("C16/", "C03/after-failed-call/"), msg) for (_, sig, msg) in asyncoracle.check_c16a(case, obs)
+            if "never-complete" in sig or "later-elements-lost" in sig]
 
 
 def shrink(case, still):
@@ -92,12 +99,23 @@ def single_node_part(prop, oprop, tier, rng, out, known, cov):
             if oprop == "C16A":
                 # the key function of the node raises for some elements (the node sits directly behind the emitter)
                 vals = [a[2] for a in c["actions"] if a[0] == "emit" and isinstance(a[2], int)]
-                if not vals or c.get("react") or any(a[0] == "mix" for a in c["actions"]):
+                if (not vals and kind != "flatten") or c.get("react") or any(a[0] == "mix" for a in c["actions"]):
                     continue
-                if kind == "partition" and c["node"].get("key") is None:
-                    c["node"]["key"] = rng.choice([["KeyMod", 2], ["KeyId"]])
-                    c["node"]["timeout"] = None
-                c["node"]["userfail"] = rng.sample(vals, min(len(vals), rng.choice([1, 1, 2])))
+                if kind == "flatten":
+                    # the CONSUMERS of some items fail (the items of one element are handed on one after the other; a
+                    # failure of any of them, first, middle or last, is a failure of the element)
+                    if c.get("sink") == "sync":
+                        c["sink"] = "ctl"
+                    idx = [i for i, a in enumerate(c["actions"]) if a == ["ack"]][:10]
+                    for i in rng.sample(idx, min(len(idx), rng.choice([1, 1, 2, 3]))):
+                        c["actions"][i] = ["ackfail"]
+                else:
+                    if kind == "partition" and c["node"].get("key") is None:
+                        c["node"]["key"] = rng.choice([["KeyMod", 2], ["KeyId"]])
+                        c["node"]["timeout"] = None
+                    if kind == "map_async":
+                        c["node"]["failmode"] = "call"
+                    c["node"]["userfail"] = rng.sample(vals, min(len(vals), rng.choice([1, 1, 2])))
             if oprop == "C04" and not faulty and not c.get("react") and rng.random() < 0.25 \
                     and not any(a[0] == "mix" for a in c["actions"]) \
                     and (kind in ("timed_window_unique", "map_async") or (kind == "partition" and c["node"].get("key") is not None)):
@@ -106,6 +124,16 @@ def single_node_part(prop, oprop, tier, rng, out, known, cov):
                 if vals:
                     c["node"]["userfail"] = rng.sample(vals, min(len(vals), rng.choice([1, 1, 2])))
                     faulty = True
+            callfail = False
+            if oprop == "C03" and kind == "map_async" and rng.random() < 0.25 and not c.get("react") \
+                    and not any(a[0] == "mix" for a in c["actions"]):
+                # the mapped function fails at call time for some elements: the emits of the OTHER elements must still
+                # complete once every consumer and task has finished (no slot or lock may stay taken)
+                vals = [a[2] for a in c["actions"] if a[0] == "emit" and isinstance(a[2], int)]
+                if vals:
+                    c["node"]["failmode"] = "call"
+                    c["node"]["userfail"] = rng.sample(vals, min(len(vals), rng.choice([1, 1, 2])))
+                    callfail = True
             try:
                 o = asyncfam.run_case(c)
             except Exception as e:
@@ -123,15 +151,15 @@ def single_node_part(prop, oprop, tier, rng, out, known, cov):
                     feat[name] = feat.get(name, 0) + 1
             if any(ob["deliv"] for ob in o[1:]):
                 nontriv.add(json.dumps(c, sort_keys=True))
-            for (p, sig, msg) in (asyncoracle.check_failed(c, o) if faulty else oracle(oprop, c, o)):
+            for (p, sig, msg) in (asyncoracle.check_failed(c, o) if faulty else (after_failed_call(c, o) if callfail else oracle(oprop, c, o))):
                 sig = sig.replace("C05A", "C05").replace("C16A", "C16")
                 if sig in known:
                     out.known_finding(sig, known[sig]["what"])
                     continue
                 if nfind < 3:
-                    def still(c2, sig=sig, faulty=faulty):
+                    def still(c2, sig=sig, faulty=faulty, callfail=callfail):
                         o2 = asyncfam.run_case(c2)
-                        return any(s == sig for _, s, _ in (asyncoracle.check_failed(c2, o2) if faulty else oracle(oprop, c2, o2)))
+                        return any(s == sig for _, s, _ in (asyncoracle.check_failed(c2, o2) if faulty else (after_failed_call(c2, o2) if callfail else oracle(oprop, c2, o2))))
                     out.violation(sig, msg, {"case": shrink(c, still), "family": "async-single"})
                 nfind += 1
                 break
@@ -220,6 +248,8 @@ def run(prop, tier, seed, replay=None, extra=None):
     if replay:
         rp = json.load(open(replay))["replay"]
         c = rp["case"]
+        if rp.get("family") is None:
+            rp["family"] = "threaded" if "threads" in c else ("async-single" if "node" in c else "async-chain")
         if rp.get("family") == "threaded":
             for _rep in range(5):
                 fs = threadfam.check(c, threadfam.run_case(c), want=("C16" if oprop == "C16A" else oprop,))
@@ -233,9 +263,10 @@ def run(prop, tier, seed, replay=None, extra=None):
                 (out.known_finding(sig, known[sig]["what"]) if sig in known else out.violation(sig, msg, {"case": c, "family": "async-chain"}))
         else:
             o = asyncfam.run_case(c)
-            faulty_r = any(a[0] == "ackfail" for a in c["actions"]) or bool(c["node"].get("userfail"))
-            for (p, sig, msg) in (asyncoracle.check_failed(c, o) if faulty_r else oracle(oprop, c, o)):
-                sig = sig.replace("C05A", "C05")
+            faulty_r = (any(a[0] == "ackfail" for a in c["actions"]) or bool(c["node"].get("userfail"))) and oprop == "C04"
+            callfail_r = oprop == "C03" and c["node"].get("failmode") == "call"
+            for (p, sig, msg) in (asyncoracle.check_failed(c, o) if faulty_r else (after_failed_call(c, o) if callfail_r else oracle(oprop, c, o))):
+                sig = sig.replace("C05A", "C05").replace("C16A", "C16")
                 (out.known_finding(sig, known[sig]["what"]) if sig in known else out.violation(sig, msg, {"case": c, "family": "async-single"}))
         cov = {"evaluations": 1, "distinct_nontrivial": 1, "samples": [c], "rule": "replay"}
     else:
